@@ -450,6 +450,8 @@ pub struct RunCtx {
     pub assumptions: Mutex<Vec<String>>,
     pub start: Instant,
     pub max_new_keys: usize,
+    /// proptest shrink-iteration bound per captured failure (lowered by checks whose cases do file I/O)
+    pub shrink_iters: std::sync::atomic::AtomicU32,
 }
 
 pub const SHARDS: usize = 64;
@@ -474,6 +476,7 @@ impl RunCtx {
             assumptions: Mutex::new(vec![]),
             start: Instant::now(),
             max_new_keys: 24,
+            shrink_iters: std::sync::atomic::AtomicU32::new(50_000),
         }
     }
 
@@ -644,7 +647,7 @@ impl RunCtx {
                 cases: remaining.min(u32::MAX as u64) as u32,
                 failure_persistence: None,
                 rng_seed: RngSeed::Fixed(mix(seed, attempt)),
-                max_shrink_iters: 50_000,
+                max_shrink_iters: self.shrink_iters.load(std::sync::atomic::Ordering::Relaxed),
                 max_shrink_time: 0,
                 verbose: 0,
                 max_global_rejects: 1,
